@@ -180,6 +180,30 @@ int g(int x, int y) { int r = 0;
 int unused(int x) { for (int i = 0; i < x; i++) { if (i) x--; else x++; } return x; }
 int main(int argc, char **argv) { return g(argc > 1 ? atoi(argv[1]) : 0, argc > 2 ? atoi(argv[2]) : 2) & 0; }
 """}, [["3", "4"], ["0"], ["200", "1"]]),
+    # a goto state machine with all its labels on one line (interleaved circuits through one line)
+    ({"t.c": """#include <stdio.h>
+static int scan(const char *p) { int n = 0;
+S0: if (!*p) goto out; if (*p++ == 'a') goto S3; S1: if (!*p) goto out; if (*p++ == 'b') goto S3; S2: if (!*p) goto out; n++; p++; goto S1; S3: if (!*p) goto out; if (*p++ == 'c') goto S2; else goto S0;
+out: return n; }
+int main(int argc, char **argv) { return scan(argc > 1 ? argv[1] : "acxbcyaabacxxbbcaacbcabcxyzacbbcacab") & 0; }
+"""}, [[], ["abcabc"], ["ccccaaab"]]),
+    # statements continued over several lines: one block whose line list returns to a line it already listed
+    ({"t.c": """#include <stdlib.h>
+static int add(int a, int b) {
+  return a + b;
+}
+int main(int argc, char **argv) {
+  int s = argc, k = 2;
+  s = add(s,
+          k) + add(k,
+                   s);
+  for (int i = 0; i < add(s,
+                          k); i++) { s -= add(1,
+                                              0); }
+  return (s +
+          k) & 0;
+}
+"""}, [[], ["1", "2"]]),
 ]
 
 
